@@ -237,8 +237,11 @@ func writeStructFieldUnmarshaller(name string, typ FieldType, w *iohelp.ErrorWri
 		writeLineWithTabs(w, "for "+iName+" := uint32(0); "+iName+" < "+lnName+" && r.Err == nil; "+iName+"++ {", depth, name)
 		ln := getLineWithTabs(settings.typeUnmarshallers[typ.Map.Key], depth+1, "&"+depthName("k", depth))
 		w.SafeWrite([]byte(strings.Replace(ln, "=", ":=", 1)))
-		name = "&(" + name[1:] + "[" + depthName("k", depth) + "])"
-		writeStructFieldUnmarshaller(name, typ.Map.Value, w, settings, depth+1)
+		// decoded into a variable of its own and stored when complete (see writeFieldReadByter)
+		vName := depthName("mv", depth)
+		writeLineWithTabs(w, "var "+vName+" "+typ.Map.Value.goString(settings), depth+1)
+		writeStructFieldUnmarshaller("&"+vName, typ.Map.Value, w, settings, depth+1)
+		writeLineWithTabs(w, "(%RECV)["+depthName("k", depth)+"] = "+vName, depth+1, name)
 		writeLineWithTabs(w, "}", depth)
 	} else {
 		simpleTyp := typ.Simple
